@@ -32,7 +32,7 @@ func refPos(src string, off int) (line, col int) {
 }
 
 func runC13(h *hx.H) {
-	h.Rule = "every text T of <=5 (quick) / <=6 (thorough) symbols over {a, TAB, e-acute, emoji, CR, LF, space} embedded as `/*T*/ x`, `x //T` (T without LF) and bare `T x` (ASCII subset): for every token and comment the reported start (and exclusive end) line/column must equal the reference function at that offset, and every AST node's span must start no later than it ends; non-trivial = text with a tab, a multi-byte character or a newline"
+	h.Rule = "every text T of <=5 (quick) / <=6 (thorough) symbols over {a, TAB, e-acute, emoji, CR, LF, space} embedded as `/*T*/ x`, `x //T` (T without LF) bare `T x` (ASCII subset), and for |T| <= 3 inside string literals (`\"T\" x`, after a backslash, inside unfinished \\x, \\u and octal escapes): for every token and comment the reported start (and exclusive end) line/column must equal the reference function at that offset, and every AST node's span must start no later than it ends; non-trivial = text with a tab, a multi-byte character or a newline"
 	alpha := []string{"a", "\t", "é", "😀", "\r", "\n", " "}
 	maxLen := 5
 	if h.Thorough() {
@@ -49,6 +49,13 @@ func runC13(h *hx.H) {
 			}
 			if !strings.ContainsAny(t, "é😀") {
 				checkPositions(h, id, t+"x;", t)
+			}
+			if n <= 3 {
+				// inside string literals, also after a backslash and inside unfinished escapes
+				// (such literals are errors, but everything after them still has a position)
+				for _, pre := range []string{"\"", "\"\\", "'\\x", "\"\\u00", "\"\\1"} {
+					checkPositions(h, id, pre+t+pre[:1]+" x\n;", t)
+				}
 			}
 		}
 		if n == maxLen || h.TooMany() {
